@@ -10,8 +10,12 @@
 //! certainly not expired; a case where that check fails is discarded and re-run on a fresh
 //! controller (never compared).
 //!
-//! The oracle states C04 on the implementation's observables only (the returned `Result` and the
-//! recorded call sequence).
+//! The oracle states C04 on the implementation's observables only (the returned `Result`, the
+//! recorded call sequence and the devices' `enable` flags read back from the geometry): "all devices"
+//! means all *enabled* devices.  Cases run under enable masks (`enable <bits>` lines) with a disabled
+//! device below, between and above enabled ones; in the `sender` stream those chunks are run a second
+//! time on a twin controller whose scripted link answers *different* acknowledgement bytes for the
+//! disabled devices — result and calls (up to those bytes) must be identical.
 //!
 //! `stale` lines run `open` + one datagram against real `CPUEmulator`s left with every message id.
 //! `sender_async` additionally runs every case through the synchronous controller in lock-step and
@@ -178,8 +182,14 @@ enum Case {
     FwVer { scs: Vec<SendS> },
     Fpga { open: bool, recv: Recv },
     Close { c: CloseS },
+    /// `geometry_mut()`: set `Device::enable` of every device
+    Enable { mask: Vec<bool> },
     /// real `CPUEmulator`s with a left-over message id (not scripted; own link)
     Stale { ids: Vec<u8> },
+}
+
+fn bits(mask: &[bool]) -> String {
+    mask.iter().map(|b| if *b { '1' } else { '0' }).collect()
 }
 impl Case {
     fn text(&self) -> String {
@@ -206,6 +216,7 @@ impl Case {
             Case::FwVer { scs } => format!("fwver {}", scs.iter().map(|s| s.text()).collect::<Vec<_>>().join(" ")),
             Case::Fpga { open, recv } => format!("fpga {} {}", if *open { "o" } else { "c" }, recv.text()),
             Case::Close { c } => format!("close {} c", c.text()),
+            Case::Enable { mask } => format!("enable {}", bits(mask)),
             Case::Stale { ids } => format!("stale {}", ids.iter().map(|f| f.to_string()).collect::<Vec<_>>().join(" ")),
         }
     }
@@ -259,6 +270,8 @@ struct LinkState {
     calls: Vec<Call>,
     /// ids of the frame seen by the last `send`
     cur_ids: Vec<u8>,
+    /// `Device::enable` at the start of the API call (timing bookkeeping only: which polls end the wait)
+    enabled: Vec<bool>,
     /// the timeout in force for the API call being run (None = no lateness can be scripted)
     timeout: Option<Duration>,
     t_send_end: Option<Instant>,
@@ -425,7 +438,10 @@ impl LinkState {
                         self.compromised = true;
                         self.why = "late-unrealisable";
                     }
-                } else if r.is_ok() && !(rx.len() == self.cur_ids.len() && rx.iter().zip(self.cur_ids.iter()).all(|(r, id)| r.ack() == *id)) {
+                } else if r.is_ok()
+                    && !(rx.len() == self.cur_ids.len()
+                        && rx.iter().zip(self.cur_ids.iter()).enumerate().all(|(i, (r, id))| !self.enabled.get(i).copied().unwrap_or(true) || r.ack() == *id))
+                {
                     // the sender will now consult the clock and must find the timeout not expired
                     self.watch = true;
                 }
@@ -649,6 +665,8 @@ struct Ran {
     answer: String,
     result: String,
     calls: Vec<Call>,
+    /// `Device::enable` of every device when the call started (read back from the geometry)
+    en: Vec<bool>,
     compromised: bool,
     why: &'static str,
     overrun: bool,
@@ -706,6 +724,7 @@ impl Worker {
             answer: format!("{result} | {}", show_calls(&calls)),
             result,
             calls,
+            en: l.enabled.clone(),
             compromised: l.compromised,
             why: l.why,
             overrun: l.overrun,
@@ -722,11 +741,36 @@ impl Worker {
         r
     }
 
+    /// `Device::enable` of every device, read back from the controller's geometry
+    fn enable_now(&self) -> Vec<bool> {
+        match &self.ctl {
+            Some(Ctl::Sync(c)) => c.geometry().iter().map(|d| d.enable).collect(),
+            Some(Ctl::Async(c)) => c.geometry().iter().map(|d| d.enable).collect(),
+            None => vec![true; self.n],
+        }
+    }
+
     fn run_inner(&mut self, case: &Case, zero_iv: bool) -> Ran {
+        if !matches!(case, Case::Open { .. } | Case::Stale { .. }) {
+            let en = self.enable_now();
+            self.link.lock().unwrap().enabled = en;
+        }
         match case {
+            Case::Enable { mask } => {
+                self.link.lock().unwrap().reset_script(None);
+                match self.ctl.as_mut().unwrap() {
+                    Ctl::Sync(c) => c.geometry_mut().iter_mut().zip(mask.iter()).for_each(|(d, b)| d.enable = *b),
+                    Ctl::Async(c) => c.geometry_mut().iter_mut().zip(mask.iter()).for_each(|(d, b)| d.enable = *b),
+                }
+                let now = self.enable_now();
+                let mut l = self.link.lock().unwrap();
+                let result = format!("set {}", bits(&now));
+                Ran { answer: result.clone(), result, calls: vec![], en: l.enabled.clone(), compromised: false, why: "", overrun: false, leftover: { l.settle(); 0 } }
+            }
             Case::Open { n, t, open_ok, ff, cs, drop } => {
                 self.dispose();
                 self.n = *n;
+                self.link.lock().unwrap().enabled = vec![true; *n];
                 let mut drop_entries;
                 {
                     let mut l = self.link.lock().unwrap();
@@ -823,8 +867,8 @@ impl Worker {
                         "ok:[{}]",
                         v.iter()
                             .map(|f| format!(
-                                "{}.{}.{}.{}.{}",
-                                f.cpu.major.0, f.cpu.minor.0, f.fpga.major.0, f.fpga.minor.0, f.fpga.function_bits
+                                "{}:{}.{}.{}.{}.{}",
+                                f.idx, f.cpu.major.0, f.cpu.minor.0, f.fpga.major.0, f.fpga.minor.0, f.fpga.function_bits
                             ))
                             .collect::<Vec<_>>()
                             .join(",")
@@ -867,7 +911,13 @@ impl Worker {
                     let mut l = self.link.lock().unwrap();
                     l.reset_script(Some(Duration::from_millis(DEFAULT_MS)));
                     l.load_close(c);
+                    // close_impl enables every device before it sends (timing bookkeeping of the link only;
+                    // `Ran::en` keeps the flags as they were before the call)
+                    if matches!(c, CloseS::Open { .. }) {
+                        l.enabled = vec![true; self.n];
+                    }
                 }
+                let en_before = self.enable_now();
                 let r = match self.ctl.take().unwrap() {
                     Ctl::Sync(c) => c.close(),
                     Ctl::Async(c) => self.rt.block_on(async { c.close().await }),
@@ -876,7 +926,9 @@ impl Worker {
                     Ok(()) => "ok".to_string(),
                     Err(e) => format!("err:{}", show_driver_err(&e, false)),
                 };
-                self.finish(res)
+                let mut ran = self.finish(res);
+                ran.en = en_before;
+                ran
             }
             Case::Stale { ids } => {
                 self.dispose();
@@ -897,7 +949,7 @@ fn run_guarded(w: &mut Worker, case: &Case) -> Ran {
             }
             w.link = Arc::new(Mutex::new(LinkState::default()));
             let first = msg.lines().next().unwrap_or("").chars().take(80).collect::<String>();
-            Ran { answer: format!("panic | {}", show_calls(&calls)), result: format!("panic({first})"), calls, compromised: false, why: "", overrun: false, leftover: 0 }
+            Ran { answer: format!("panic | {}", show_calls(&calls)), result: format!("panic({first})"), calls, en: vec![], compromised: false, why: "", overrun: false, leftover: 0 }
         }
     }
 }
@@ -1055,7 +1107,7 @@ fn run_stale(w: &mut Worker, ids: &[u8]) -> Ran {
     let acks = acks.lock().unwrap();
     let shown = acks.iter().take(3).cloned().collect::<Vec<_>>().join(" ");
     let result = format!("{res} clear={} sync={} first={}", bits(&clear), bits(&sync), bits(&first));
-    Ran { answer: format!("{result} | {shown}"), result, calls: vec![], compromised: false, why: "", overrun: false, leftover: 0 }
+    Ran { answer: format!("{result} | {shown}"), result, calls: vec![], en: vec![true; n], compromised: false, why: "", overrun: false, leftover: 0 }
 }
 
 
@@ -1376,81 +1428,168 @@ fn program_phase(out: &mut Out, thorough: bool, seed: u64) {
 // the oracle: C04 on the observables of one `Sender::send`
 // ------------------------------------------------------------------------------------------------
 
-/// `calls` = what the link saw during one `send` (starting with `update`), `result` = canonical result.
-fn oracle_send(tz: bool, calls: &[Call], result: &str) -> Option<String> {
-    let mut pending: Option<Vec<u8>> = None; // frame sent and not yet acknowledged by all
+/// The property on one `Sender::send`: `calls` = what the link saw (starting with `update`), `en` = the
+/// devices' enable flags.  `Ok(acceptable results)` (empty = the link was never asked) or `Err(what is wrong
+/// with the calls themselves)`.  "All devices" = all **enabled** devices: a frame counts as acknowledged when
+/// every enabled device answered its id; only an enabled device's error acknowledgement is an error.
+fn verdict(tz: bool, en: &[bool], calls: &[Call]) -> Result<Vec<String>, String> {
+    let enabled = |i: usize| en.get(i).copied().unwrap_or(true);
+    let mut pending: Option<Vec<u8>> = None; // frame sent and not yet acknowledged by all enabled devices
     let mut polls_since_send = 0usize;
-    let mut last_rx: Option<(Vec<(u8, u8)>, bool)> = None;
     for (i, c) in calls.iter().enumerate() {
         match c {
-            Call::Overrun(w) => return Some(format!("the sender kept calling {w} after the scripted behaviour had to end the call")),
+            Call::Overrun(w) => return Err(format!("the sender kept calling {w} after the scripted behaviour had to end the call")),
             Call::Send(frame, ok) => {
                 if let Some(p) = &pending {
                     if !tz {
-                        return Some(format!("call {i}: next frame sent while frame {p:?} was not acknowledged by all devices (timeout > 0)"));
+                        return Err(format!("call {i}: next frame sent while frame {p:?} was not acknowledged by all enabled devices (enable {}; timeout > 0)", bits(en)));
                     }
                 }
                 if tz && pending.is_some() && polls_since_send != 1 {
-                    return Some(format!("zero timeout: {polls_since_send} receives for one frame (expected exactly one)"));
+                    return Err(format!("zero timeout: {polls_since_send} receives for one frame (expected exactly one)"));
                 }
                 if *ok {
                     pending = Some(frame.iter().map(|f| f.0).collect());
                     polls_since_send = 0;
-                    last_rx = None;
                 }
             }
-            Call::Recv(Some(rx), late) => {
+            Call::Recv(Some(rx), _) => {
                 polls_since_send += 1;
                 if let Some(p) = &pending {
-                    if rx.len() == p.len() && rx.iter().zip(p.iter()).all(|(r, id)| r.0 == *id) {
+                    if rx.len() == p.len() && rx.iter().zip(p.iter()).enumerate().all(|(i, (r, id))| !enabled(i) || r.0 == *id) {
                         pending = None;
                     }
                 }
-                last_rx = Some((rx.clone(), *late));
             }
             Call::Recv(None, _) => polls_since_send += 1,
             _ => {}
         }
     }
-    let last = calls.last();
-    let expect: Option<String> = match last {
-        None => None,
-        Some(Call::IsOpen(false)) => Some("err:LinkClosed".into()),
-        Some(Call::Update(false)) => Some("err:Link(update)".into()),
-        Some(Call::Send(_, false)) => Some("err:Link(send)".into()),
-        Some(Call::Recv(None, _)) => Some("err:Link(receive)".into()),
+    match calls.last() {
+        None => Ok(vec![]),
+        Some(Call::IsOpen(false)) => Ok(vec!["err:LinkClosed".into()]),
+        Some(Call::Update(false)) => Ok(vec!["err:Link(update)".into()]),
+        Some(Call::Send(_, false)) => Ok(vec!["err:Link(send)".into()]),
+        Some(Call::Recv(None, _)) => Ok(vec!["err:Link(receive)".into()]),
         Some(Call::Recv(Some(rx), late)) => {
             if pending.is_none() {
-                Some("ok".into())
-            } else if !*late && result == "ok" {
-                return Some("Ok although the last frame was not acknowledged by all devices and the timeout (> 0) had not expired".into());
+                Ok(vec!["ok".into()])
             } else if !*late {
-                return Some("the sender gave up on a frame although neither acknowledged, nor failed, nor timed out".into());
-            } else if let Some(e) = rx.iter().find(|r| r.0 & 0x80 != 0) {
-                // any reporting device's own error is accepted; the first one is what the code returns
-                let mine = fw_name(e.0);
-                let any: Vec<String> = rx.iter().filter(|r| r.0 & 0x80 != 0).map(|r| format!("err:{}", fw_name(r.0))).collect();
-                if any.iter().any(|a| a == result) { Some(result.to_string()) } else { Some(format!("err:{mine}")) }
-            } else if tz {
-                Some("ok".into())
+                Err("the sender stopped waiting for a frame that was neither acknowledged by all enabled devices, nor failed, nor timed out".into())
             } else {
-                Some("err:ConfirmResponseFailed".into())
+                // any reporting *enabled* device's own error is accepted; the first one is what the code returns
+                let errs: Vec<String> = rx.iter().enumerate().filter(|(i, r)| enabled(*i) && r.0 & 0x80 != 0).map(|(_, r)| format!("err:{}", fw_name(r.0))).collect();
+                if !errs.is_empty() {
+                    Ok(errs)
+                } else if tz {
+                    Ok(vec!["ok".into()])
+                } else {
+                    Ok(vec!["err:ConfirmResponseFailed".into()])
+                }
             }
         }
-        Some(c) => return Some(format!("send ended after {c:?}")),
-    };
-    if let Some(e) = expect {
-        if e != result {
-            return Some(format!("returned `{result}` where the property requires `{e}`"));
+        Some(c) => Err(format!("send ended after {c:?}")),
+    }
+}
+
+fn oracle_send(tz: bool, en: &[bool], calls: &[Call], result: &str) -> Option<String> {
+    match verdict(tz, en, calls) {
+        Err(w) => {
+            if result == "ok" && w.starts_with("the sender stopped") {
+                return Some(format!("Ok although the last frame was not acknowledged by all enabled devices (enable {}) and the timeout (> 0) had not expired", bits(en)));
+            }
+            Some(w)
         }
-    } else if result != "err:Generator" {
-        return Some(format!("returned `{result}` without talking to the link"));
+        Ok(acc) if acc.is_empty() => {
+            if result != "err:Generator" {
+                Some(format!("returned `{result}` without talking to the link"))
+            } else {
+                None
+            }
+        }
+        Ok(acc) => {
+            if acc.iter().any(|a| a == result) {
+                None
+            } else {
+                Some(format!("returned `{result}` where the property requires `{}` (enable {})", acc[0], bits(en)))
+            }
+        }
     }
-    if result == "ok" && !tz && pending.is_some() {
-        return Some("Ok although the last frame was not acknowledged by all devices".into());
+}
+
+/// the calls of consecutive sends: a new segment starts at every `update`
+fn segments(calls: &[Call]) -> Vec<Vec<Call>> {
+    let mut segs: Vec<Vec<Call>> = vec![];
+    for c in calls {
+        if matches!(c, Call::Update(_)) {
+            segs.push(vec![]);
+        }
+        if let Some(s) = segs.last_mut() {
+            s.push(c.clone());
+        }
     }
-    let _ = last_rx;
+    segs
+}
+
+/// `firmware_version` (default option: the datagram's 200 ms): six sends, stopping at the first failure;
+/// `Ok` lists exactly the enabled devices
+fn oracle_fwver(en: &[bool], calls: &[Call], result: &str) -> Option<String> {
+    let segs = segments(calls);
+    let ok = result.starts_with("ok:");
+    for (k, seg) in segs.iter().enumerate() {
+        let last = k + 1 == segs.len();
+        if !last || ok {
+            if let Some(w) = oracle_send(false, en, seg, "ok") {
+                return Some(format!("firmware_version went on after fetch {k}: {w}"));
+            }
+        } else if oracle_send(false, en, seg, "ok").is_none() {
+            return Some(format!("firmware_version failed (`{result}`) although every frame of fetch {k} was acknowledged by every enabled device (enable {})", bits(en)));
+        }
+    }
+    if ok {
+        if segs.len() != 6 {
+            return Some(format!("firmware_version returned Ok after {} fetches", segs.len()));
+        }
+        let listed: Vec<String> = result.trim_start_matches("ok:[").trim_end_matches(']').split(',').filter(|x| !x.is_empty()).map(|x| x.split(':').next().unwrap_or("").to_string()).collect();
+        let want: Vec<String> = en.iter().enumerate().filter(|(_, e)| **e).map(|(i, _)| i.to_string()).collect();
+        if listed != want {
+            return Some(format!("firmware_version lists devices {listed:?}, the enabled ones are {want:?}"));
+        }
+    }
     None
+}
+
+/// `close` on a link that says open: every device is enabled, three sends (each judged on all devices) and
+/// `link.close`; a failing `link.close` wins, otherwise the first failing send
+fn oracle_close(n: usize, calls: &[Call], result: &str) -> Option<String> {
+    if !matches!(calls.first(), Some(Call::IsOpen(true))) {
+        return if result == "ok" { None } else { Some(format!("close on a closed link returned `{result}`")) };
+    }
+    let all = vec![true; n];
+    // cut at the `close` call (Drop's `is_open` follows it)
+    let end = calls.iter().position(|c| matches!(c, Call::Close(_))).map(|i| i + 1).unwrap_or(calls.len());
+    let body = &calls[..end];
+    let close_ok = match body.last() {
+        Some(Call::Close(ok)) => *ok,
+        _ => return Some("close did not call link.close".into()),
+    };
+    let segs = segments(&body[..body.len() - 1]);
+    if segs.len() != 3 {
+        return Some(format!("close made {} sends (expected 3)", segs.len()));
+    }
+    let mut first_fail: Option<Vec<String>> = None;
+    for (k, seg) in segs.iter().enumerate() {
+        match verdict(false, &all, seg) {
+            Err(w) => return Some(format!("close, send {k}: {w}")),
+            Ok(acc) => {
+                if first_fail.is_none() && !acc.iter().any(|a| a == "ok") {
+                    first_fail = Some(acc);
+                }
+            }
+        }
+    }
+    let acc = if !close_ok { vec!["err:Link(close)".to_string()] } else { first_fail.unwrap_or_else(|| vec!["ok".into()]) };
+    if acc.iter().any(|a| a == result) { None } else { Some(format!("close returned `{result}` where `{}` is required (every device counts: close enables all)", acc[0])) }
 }
 
 fn fw_name(ack: u8) -> String {
@@ -1513,23 +1652,25 @@ fn turns(frames: &[u8]) -> usize {
     (*frames.iter().max().unwrap_or(&0) as usize).max(1)
 }
 
-/// is this frame script one after which the loop goes on (given zero/non-zero timeout)?
-fn frame_passes(f: &FrameS, tz: bool) -> bool {
+/// every enabled device answers the frame's id
+fn is_ack(kinds: &[Kind], mask: &[bool]) -> bool {
+    kinds.iter().zip(mask.iter()).all(|(k, m)| !*m || *k == Kind::R)
+}
+
+/// is this frame script one after which the loop goes on (given zero/non-zero timeout and the enable flags)?
+fn frame_passes_m(f: &FrameS, tz: bool, mask: &[bool]) -> bool {
     if !f.open || !f.send_ok {
         return false;
     }
     match f.polls.last() {
-        Some(PollS::Poll { recv, late }) => {
-            if recv.all_right() {
-                true
-            } else if let Recv::Rx { kinds, .. } = recv {
-                *late && tz && !kinds.iter().any(|k| matches!(k, Kind::E(c) if c & 0x80 != 0))
-            } else {
-                false
-            }
+        Some(PollS::Poll { recv: Recv::Rx { kinds, .. }, late }) => {
+            is_ack(kinds, mask) || (*late && tz && !kinds.iter().zip(mask.iter()).any(|(k, m)| *m && matches!(k, Kind::E(c) if c & 0x80 != 0)))
         }
         _ => false,
     }
+}
+fn frame_passes(f: &FrameS, tz: bool) -> bool {
+    frame_passes_m(f, tz, &[true; 16])
 }
 
 /// all minimal poll lists of length <= k for one frame (terminal only at the end)
@@ -1637,12 +1778,548 @@ fn rand_send(n: usize, frames: &[u8], t_eff: T, k: usize, rng: &mut Rng) -> Send
     SendS { update_ok: true, frames: fs }
 }
 
+// ---- the same under an enable mask ---------------------------------------------------------------
+
+/// number of turns of the send loop when every frame passes: only enabled devices get an operation
+fn turns_m(frames: &[u8], mask: &[bool]) -> usize {
+    (frames.iter().zip(mask.iter()).filter(|(_, m)| **m).map(|(f, _)| *f as usize).max().unwrap_or(0)).max(1)
+}
+
+/// all minimal poll lists of length <= k for one frame under `mask`: a poll ends the wait when every
+/// *enabled* device answers the id; disabled devices answer every kind (id of their untouched slot, previous
+/// id, garbage, error codes) in terminal and non-terminal polls alike
+fn poll_lists_masked(n: usize, mask: &[bool], k: usize, t: T, ecode: &mut u32, rng: &mut Rng) -> Vec<Vec<PollS>> {
+    let kinds = all_kinds(n, ecode);
+    let (acks, nonterminal): (Vec<Vec<Kind>>, Vec<Vec<Kind>>) = kinds.into_iter().partition(|ks| is_ack(ks, mask));
+    let mut terminals: Vec<PollS> = vec![PollS::Closed, PollS::Poll { recv: Recv::Err, late: false }];
+    for ks in &acks {
+        terminals.push(PollS::Poll { recv: Recv::Rx { kinds: ks.clone(), base: rng.below(256) as u8 }, late: false });
+    }
+    if t != T::L {
+        terminals.push(PollS::Poll { recv: Recv::Err, late: true });
+        for ks in acks.iter().chain(nonterminal.iter()) {
+            terminals.push(PollS::Poll { recv: Recv::Rx { kinds: ks.clone(), base: rng.below(256) as u8 }, late: true });
+        }
+    }
+    if t == T::Z {
+        return terminals.into_iter().filter(|p| matches!(p, PollS::Closed | PollS::Poll { late: true, .. })).map(|p| vec![p]).collect();
+    }
+    let mut out: Vec<Vec<PollS>> = vec![];
+    let mut prefixes: Vec<Vec<PollS>> = vec![vec![]];
+    for _len in 1..=k {
+        for p in &prefixes {
+            for tm in &terminals {
+                let mut l = p.clone();
+                l.push(tm.clone());
+                out.push(l);
+            }
+        }
+        let mut next = vec![];
+        for p in &prefixes {
+            for ks in &nonterminal {
+                let mut l = p.clone();
+                l.push(PollS::Poll { recv: Recv::Rx { kinds: ks.clone(), base: rng.below(256) as u8 }, late: false });
+                next.push(l);
+            }
+        }
+        prefixes = next;
+    }
+    out
+}
+
+/// what a disabled device may answer: the id its untouched slot carries, the previous id, garbage, a
+/// firmware error code (0x80..0x8F), other bytes with the error bit, any byte below 0x80
+fn rand_disabled_kind(rng: &mut Rng) -> Kind {
+    match rng.below(8) {
+        0 | 1 => Kind::R,
+        2 => Kind::P,
+        3 => Kind::G,
+        4 | 5 => Kind::E(0x80 + rng.below(16) as u8),
+        6 => Kind::E(*rng.pick(&[0xFFu8, 0x90, 0xC0, 0xA5])),
+        _ => Kind::E(rng.below(128) as u8),
+    }
+}
+
+fn rand_polls_m(n: usize, mask: &[bool], k: usize, t: T, rng: &mut Rng) -> Vec<PollS> {
+    let mut out = vec![];
+    for i in 0..k {
+        let last = i + 1 == k;
+        let r = rng.below(24);
+        if r == 0 {
+            out.push(PollS::Closed);
+            return out;
+        }
+        if r == 1 {
+            out.push(PollS::Poll { recv: Recv::Err, late: false });
+            return out;
+        }
+        let all_right = rng.chance(1, 3) || (last && t == T::L);
+        let kinds: Vec<Kind> = (0..n).map(|d| if !mask[d] { rand_disabled_kind(rng) } else if all_right { Kind::R } else { rand_kind(rng) }).collect();
+        let acked = is_ack(&kinds, mask);
+        let late = t == T::Z || (t != T::L && (last || rng.chance(1, 6)));
+        out.push(PollS::Poll { recv: Recv::Rx { kinds, base: rng.below(256) as u8 }, late });
+        if acked || late {
+            return out;
+        }
+    }
+    out
+}
+
+fn rand_send_m(n: usize, mask: &[bool], frames: &[u8], t_eff: T, k: usize, rng: &mut Rng) -> SendS {
+    if rng.chance(1, 50) {
+        return SendS { update_ok: false, frames: vec![] };
+    }
+    let tz = t_eff == T::Z;
+    let mut fs = vec![];
+    for _ in 0..turns_m(frames, mask) {
+        let r = rng.below(50);
+        let f = if r == 0 {
+            FrameS { open: false, send_ok: true, polls: vec![] }
+        } else if r == 1 {
+            FrameS { open: true, send_ok: false, polls: vec![] }
+        } else {
+            FrameS { open: true, send_ok: true, polls: rand_polls_m(n, mask, 1 + rng.below(k as u64) as usize, t_eff, rng) }
+        };
+        let pass = frame_passes_m(&f, tz, mask);
+        fs.push(f);
+        if !pass {
+            break;
+        }
+    }
+    SendS { update_ok: true, frames: fs }
+}
+
+/// a frame every enabled device acknowledges at once; disabled devices answer whatever `dk` says
+fn pass_frame_m(mask: &[bool], base: u8, dk: &mut dyn FnMut() -> Kind) -> FrameS {
+    let kinds = mask.iter().map(|m| if *m { Kind::R } else { dk() }).collect();
+    FrameS { open: true, send_ok: true, polls: vec![PollS::Poll { recv: Recv::Rx { kinds, base }, late: false }] }
+}
+fn pass_send_m(mask: &[bool], nframes: usize, base: u8, dk: &mut dyn FnMut() -> Kind) -> SendS {
+    SendS { update_ok: true, frames: (0..nframes).map(|i| pass_frame_m(mask, base.wrapping_add(i as u8 * 16), dk)).collect() }
+}
+
+/// the same case with different acknowledgement bytes for the disabled devices
+fn perturb(case: &Case, mask: &[bool], rng: &mut Rng) -> Case {
+    fn recv(r: &Recv, mask: &[bool], rng: &mut Rng) -> Recv {
+        match r {
+            Recv::Err => Recv::Err,
+            Recv::Rx { kinds, base } => Recv::Rx {
+                kinds: kinds
+                    .iter()
+                    .enumerate()
+                    .map(|(i, k)| {
+                        if mask.get(i).copied().unwrap_or(true) {
+                            *k
+                        } else {
+                            // a different kind where possible
+                            let mut nk = rand_disabled_kind(rng);
+                            for _ in 0..4 {
+                                if nk != *k {
+                                    break;
+                                }
+                                nk = rand_disabled_kind(rng);
+                            }
+                            nk
+                        }
+                    })
+                    .collect(),
+                base: *base,
+            },
+        }
+    }
+    fn send(s: &SendS, mask: &[bool], rng: &mut Rng) -> SendS {
+        SendS {
+            update_ok: s.update_ok,
+            frames: s
+                .frames
+                .iter()
+                .map(|f| FrameS {
+                    open: f.open,
+                    send_ok: f.send_ok,
+                    polls: f
+                        .polls
+                        .iter()
+                        .map(|p| match p {
+                            PollS::Closed => PollS::Closed,
+                            PollS::Poll { recv: r, late } => PollS::Poll { recv: recv(r, mask, rng), late: *late },
+                        })
+                        .collect(),
+                })
+                .collect(),
+        }
+    }
+    match case {
+        Case::Send { t, td, par, frames, sc } => Case::Send { t: *t, td: *td, par: *par, frames: frames.clone(), sc: send(sc, mask, rng) },
+        Case::FwVer { scs } => Case::FwVer { scs: scs.iter().map(|s| send(s, mask, rng)).collect() },
+        Case::Fpga { open, recv: r } => Case::Fpga { open: *open, recv: recv(r, mask, rng) },
+        // close enables every device before it sends; open starts with every device enabled
+        c => c.clone(),
+    }
+}
+
+/// builds a chunk under changing enable masks together with its twin (same cases, other bytes from the
+/// disabled devices)
+struct MaskChunk {
+    n: usize,
+    mask: Vec<bool>,
+    cases: Vec<Case>,
+    twin: Vec<Case>,
+}
+impl MaskChunk {
+    fn new(n: usize, t: T) -> Self {
+        let o = plain_open(n, t);
+        MaskChunk { n, mask: vec![true; n], cases: vec![o.clone()], twin: vec![o] }
+    }
+    fn enable(&mut self, mask: &[bool]) {
+        assert_eq!(mask.len(), self.n);
+        self.mask = mask.to_vec();
+        let c = Case::Enable { mask: mask.to_vec() };
+        self.cases.push(c.clone());
+        self.twin.push(c);
+    }
+    fn push(&mut self, c: Case, rng: &mut Rng) {
+        self.twin.push(perturb(&c, &self.mask, rng));
+        self.cases.push(c);
+    }
+}
+
+fn parse_mask(s: &str) -> Vec<bool> {
+    s.chars().map(|c| c == '1').collect()
+}
+
+/// every mask of `n` devices with at least one disabled device (the all-disabled one last)
+fn masks_of(n: usize) -> Vec<Vec<bool>> {
+    let mut v: Vec<Vec<bool>> = (0..(1usize << n) - 1).map(|m| (0..n).map(|i| m >> i & 1 == 1).collect()).collect();
+    v.rotate_left(1);
+    v
+}
+
 fn eff(t: T, td: T) -> T {
     if t == T::N { td } else { t }
 }
 
 struct Plan {
     chunks: Vec<Vec<Case>>,
+    /// per chunk: the same cases with other acknowledgement bytes from the disabled devices
+    twins: Vec<Option<Vec<Case>>>,
+}
+
+/// corpus under enable masks: the minimal scripts on which the two enable-related regressions of
+/// `wait_msg_processed` show — (i) judging the enabled devices by a `zip` of `geometry.devices()` with the
+/// per-device flags (shifted when a disabled device has a lower index), (ii) scanning disabled devices'
+/// acknowledgements for firmware errors after the loop
+fn mask_corpus(rng: &mut Rng) -> Vec<MaskChunk> {
+    let np = |kinds: Vec<Kind>, late: bool| PollS::Poll { recv: Recv::Rx { kinds, base: 0x40 }, late };
+    let one = |t: T, frames: Vec<u8>, polls: Vec<PollS>| Case::Send { t, td: T::S, par: 0, frames, sc: SendS { update_ok: true, frames: vec![FrameS { open: true, send_ok: true, polls }] } };
+    let mut out = vec![];
+    {
+        let mut c = MaskChunk::new(2, T::S);
+        c.enable(&parse_mask("01"));
+        // (i) the disabled device 0 "acknowledges" (its untouched slot's id), the enabled device 1 never does
+        c.push(one(T::S, vec![1, 1], vec![np(vec![Kind::R, Kind::P], true)]), rng);
+        // (i) … or answers an error acknowledgement
+        c.push(one(T::S, vec![1, 1], vec![np(vec![Kind::R, Kind::E(0x88)], true)]), rng);
+        // (ii) a stale error held by the disabled device, the enabled one lagging: time-out / zero timeout
+        c.push(one(T::S, vec![1, 1], vec![np(vec![Kind::E(0x88), Kind::P], true)]), rng);
+        c.push(one(T::Z, vec![1, 1], vec![np(vec![Kind::E(0x8E), Kind::P], true)]), rng);
+        // (i) two frames: the second must wait for the enabled device's late acknowledgement of the first
+        c.push(
+            Case::Send {
+                t: T::L, td: T::S, par: 0, frames: vec![2, 2],
+                sc: SendS { update_ok: true, frames: vec![FrameS { open: true, send_ok: true, polls: vec![np(vec![Kind::R, Kind::P], false), np(vec![Kind::R, Kind::R], false)] }, FrameS { open: true, send_ok: true, polls: vec![np(vec![Kind::G, Kind::R], false)] }] },
+            },
+            rng,
+        );
+        // the disabled device's error / garbage does not delay or fail an acknowledged frame
+        c.push(one(T::S, vec![1, 1], vec![np(vec![Kind::E(0x81), Kind::R], false)]), rng);
+        c.push(one(T::Z, vec![3, 1], vec![np(vec![Kind::E(0xFF), Kind::R], true)]), rng);
+        c.enable(&parse_mask("10"));
+        c.push(one(T::S, vec![1, 1], vec![np(vec![Kind::P, Kind::R], true)]), rng);
+        c.push(one(T::S, vec![1, 1], vec![np(vec![Kind::R, Kind::E(0x88)], false)]), rng);
+        c.push(one(T::S, vec![1, 1], vec![np(vec![Kind::E(0x85), Kind::E(0x88)], true)]), rng);
+        c.enable(&parse_mask("00"));
+        c.push(one(T::S, vec![1, 1], vec![np(vec![Kind::P, Kind::E(0x88)], false)]), rng);
+        c.enable(&parse_mask("11"));
+        c.push(one(T::S, vec![1, 1], vec![np(vec![Kind::P, Kind::R], false), np(vec![Kind::R, Kind::R], false)]), rng);
+        c.enable(&parse_mask("01"));
+        c.push(Case::Close { c: pass_close(2) }, rng);
+        out.push(c);
+    }
+    {
+        let mut c = MaskChunk::new(3, T::S);
+        // disabled between two enabled devices
+        c.enable(&parse_mask("101"));
+        c.push(one(T::S, vec![1, 1, 1], vec![np(vec![Kind::R, Kind::R, Kind::P], true)]), rng);
+        c.push(one(T::S, vec![1, 1, 1], vec![np(vec![Kind::R, Kind::R, Kind::E(0x8B)], true)]), rng);
+        c.push(one(T::S, vec![1, 1, 1], vec![np(vec![Kind::R, Kind::E(0x8F), Kind::G], true)]), rng);
+        c.push(one(T::Z, vec![1, 1, 1], vec![np(vec![Kind::P, Kind::E(0x80), Kind::R], true)]), rng);
+        // disabled below two enabled devices
+        c.enable(&parse_mask("011"));
+        c.push(one(T::S, vec![1, 1, 1], vec![np(vec![Kind::R, Kind::R, Kind::P], true)]), rng);
+        c.push(one(T::S, vec![1, 1, 1], vec![np(vec![Kind::R, Kind::P, Kind::R], true)]), rng);
+        c.push(one(T::S, vec![1, 1, 1], vec![np(vec![Kind::E(0x84), Kind::R, Kind::P], false), np(vec![Kind::E(0x84), Kind::R, Kind::R], false)]), rng);
+        // disabled above
+        c.enable(&parse_mask("110"));
+        c.push(one(T::S, vec![1, 1, 1], vec![np(vec![Kind::R, Kind::P, Kind::R], true)]), rng);
+        c.push(one(T::S, vec![1, 1, 1], vec![np(vec![Kind::R, Kind::P, Kind::E(0x88)], true)]), rng);
+        // two disabled below the only enabled one
+        c.enable(&parse_mask("001"));
+        c.push(one(T::S, vec![1, 1, 1], vec![np(vec![Kind::R, Kind::R, Kind::P], true)]), rng);
+        c.push(one(T::Z, vec![1, 1, 1], vec![np(vec![Kind::E(0x88), Kind::R, Kind::G], true)]), rng);
+        out.push(c);
+    }
+    out
+}
+
+/// exhaustive one-frame behaviours, link faults, firmware_version / fpga_state / close and random scenarios
+/// under enable masks
+fn mask_chunks(thorough: bool, rng: &mut Rng) -> Vec<MaskChunk> {
+    let mut out: Vec<MaskChunk> = vec![];
+    let mut ecode = 7u32;
+    // ---- every poll behaviour of one frame, every mask ------------------------------------------------
+    for n in 2..=3usize {
+        for mask in masks_of(n) {
+            let n_en = mask.iter().filter(|m| **m).count();
+            for t in [T::Z, T::S, T::L] {
+                let k = match (t, n, thorough) {
+                    (T::S, 2, false) => 2,
+                    (T::S, _, false) => 1,
+                    (T::S, 2, true) => 3,
+                    (T::S, _, true) => 2,
+                    (_, 2, false) => 2,
+                    (_, _, false) => 2,
+                    (_, 2, true) => 3,
+                    (_, _, true) => 2,
+                };
+                let k = if n_en == 0 { 1 } else { k };
+                let lists = poll_lists_masked(n, &mask, k, t, &mut ecode, rng);
+                let positions: Vec<(usize, usize)> = if thorough { vec![(0, 1), (0, 3), (1, 3), (2, 3)] } else { vec![(0, 1), (1, 2)] };
+                for (j, nf) in positions {
+                    let mut cases = vec![];
+                    for (li, pl) in lists.iter().enumerate() {
+                        let late = pl.iter().any(|p| matches!(p, PollS::Poll { late: true, .. }));
+                        // S-late cases cost a sleep each: thin the biggest classes in the quick tier
+                        if !thorough && t == T::S && late && ((pl.len() == 2 && (li + j) % 2 != 0) || (n == 3 && j == 1 && li % 2 != 0)) {
+                            continue;
+                        }
+                        if !thorough && t == T::L && n == 3 && pl.len() == 2 && (li + j) % 3 != 0 {
+                            continue;
+                        }
+                        let mut dk = || Kind::R;
+                        let mut frames: Vec<FrameS> = (0..j).map(|i| pass_frame_m(&mask, (i * 16) as u8, &mut dk)).collect();
+                        // the frames before it: the disabled devices answer something else each time
+                        for (fi, f) in frames.iter_mut().enumerate() {
+                            if let PollS::Poll { recv: Recv::Rx { kinds, .. }, .. } = &mut f.polls[0] {
+                                for (d, kd) in kinds.iter_mut().enumerate() {
+                                    if !mask[d] {
+                                        *kd = [Kind::E(0x88), Kind::G, Kind::R, Kind::P, Kind::E(0x17)][(li + fi + d) % 5];
+                                    }
+                                }
+                            }
+                        }
+                        let f = FrameS { open: true, send_ok: true, polls: pl.clone() };
+                        let pass = frame_passes_m(&f, t == T::Z, &mask);
+                        frames.push(f);
+                        if pass {
+                            for i in j + 1..nf {
+                                frames.push(pass_frame_m(&mask, (i * 16) as u8, &mut dk));
+                            }
+                        }
+                        // the first enabled device takes nf frames, the other enabled ones vary; what a disabled
+                        // device "would take" is never asked
+                        let first_en = mask.iter().position(|m| *m);
+                        let fv: Vec<u8> = (0..n).map(|d| if Some(d) == first_en { nf as u8 } else if mask[d] { ((li + d) % (nf + 1)) as u8 } else { ((li * 7 + d) % 5) as u8 }).collect();
+                        // all disabled: nothing is packed, the old frame goes out once
+                        if n_en == 0 && j > 0 {
+                            continue;
+                        }
+                        let (tt, td) = if li % 5 == 4 { (T::N, t) } else { (t, *rng.pick(&[T::Z, T::S, T::L])) };
+                        cases.push(Case::Send { t: tt, td, par: (li % 3) as u8, frames: fv, sc: SendS { update_ok: true, frames } });
+                    }
+                    for part in cases.chunks(96) {
+                        let mut c = MaskChunk::new(n, *rng.pick(&[T::S, T::L, T::Z]));
+                        c.enable(&mask);
+                        for cs in part {
+                            c.push(cs.clone(), rng);
+                        }
+                        out.push(c);
+                    }
+                }
+            }
+        }
+    }
+
+    // ---- link-level faults at every position, one mask per device count ---------------------------------
+    for (n, m) in [(2usize, "01"), (3, "101"), (3, "011"), (3, "110")] {
+        let mask = parse_mask(m);
+        let mut c = MaskChunk::new(n, T::S);
+        c.enable(&mask);
+        let mut q = 0usize;
+        let mut dk = move || {
+            q += 1;
+            [Kind::E(0x88), Kind::R, Kind::G, Kind::E(0x8E), Kind::P][q % 5]
+        };
+        for nf in 1..=2usize {
+            for j in 0..nf {
+                for fault in 0..3 {
+                    let mut frames: Vec<FrameS> = (0..j).map(|i| pass_frame_m(&mask, i as u8, &mut dk)).collect();
+                    frames.push(match fault {
+                        0 => FrameS { open: false, send_ok: true, polls: vec![] },
+                        1 => FrameS { open: true, send_ok: false, polls: vec![] },
+                        _ => FrameS { open: true, send_ok: true, polls: vec![PollS::Poll { recv: Recv::Err, late: false }] },
+                    });
+                    for t in [T::Z, T::L] {
+                        c.push(Case::Send { t, td: T::S, par: 0, frames: vec![nf as u8; n], sc: SendS { update_ok: true, frames: frames.clone() } }, rng);
+                    }
+                }
+            }
+            c.push(Case::Send { t: T::S, td: T::S, par: 0, frames: vec![nf as u8; n], sc: SendS { update_ok: false, frames: vec![] } }, rng);
+        }
+        // operations that are done before the first pack, on the enabled devices only / on the disabled only
+        c.push(Case::Send { t: T::S, td: T::S, par: 0, frames: mask.iter().map(|e| if *e { 0 } else { 2 }).collect(), sc: pass_send_m(&mask, 1, 0, &mut dk) }, rng);
+        c.push(Case::Send { t: T::S, td: T::S, par: 0, frames: mask.iter().map(|e| if *e { 2 } else { 0 }).collect(), sc: pass_send_m(&mask, 2, 0, &mut dk) }, rng);
+        c.push(Case::SendX { t: T::S, td: T::S }, rng);
+        out.push(c);
+    }
+
+    // ---- firmware_version / fpga_state / close under every mask ---------------------------------------
+    for n in 2..=3usize {
+        for (mi, mask) in masks_of(n).into_iter().enumerate() {
+            let mut c = MaskChunk::new(n, T::S);
+            let mut q = mi;
+            let mut dk = move || {
+                q += 1;
+                [Kind::E(0x88), Kind::R, Kind::G, Kind::E(0x80), Kind::P, Kind::E(0x33)][q % 6]
+            };
+            // ids of the devices drift apart: one frame while only some devices are enabled
+            c.enable(&mask);
+            c.push(Case::Send { t: T::L, td: T::S, par: 0, frames: vec![2; n], sc: pass_send_m(&mask, turns_m(&vec![2; n], &mask), 0x11, &mut dk) }, rng);
+            let fw_pass = |b: u8, dk: &mut dyn FnMut() -> Kind| -> Vec<SendS> { (0..6).map(|i| pass_send_m(&mask, 1, b.wrapping_add(i * 7), dk)).collect() };
+            c.push(Case::FwVer { scs: fw_pass(0xA0, &mut dk) }, rng);
+            c.push(Case::Fpga { open: true, recv: Recv::Rx { kinds: (0..n).map(|d| Kind::E(0x80 + d as u8)).collect(), base: 0xFE } }, rng);
+            c.push(Case::Fpga { open: true, recv: Recv::Rx { kinds: (0..n).map(|d| Kind::E(d as u8)).collect(), base: 0x7F } }, rng);
+            // a fetch fails on a link fault after a poll in which only the disabled devices "acknowledge"
+            for j in [0usize, 3, 5] {
+                let mut scs = fw_pass((j * 16) as u8, &mut dk);
+                scs[j] = SendS {
+                    update_ok: true,
+                    frames: vec![FrameS {
+                        open: true,
+                        send_ok: true,
+                        polls: vec![
+                            PollS::Poll { recv: Recv::Rx { kinds: mask.iter().map(|e| if *e { Kind::P } else { Kind::R }).collect(), base: 0x33 }, late: false },
+                            if j == 3 { PollS::Closed } else { PollS::Poll { recv: Recv::Err, late: false } },
+                        ],
+                    }],
+                };
+                for s in scs.iter_mut().skip(j + 1) {
+                    *s = empty_send();
+                }
+                if mask.iter().any(|e| *e) {
+                    c.push(Case::FwVer { scs }, rng);
+                }
+            }
+            // … and on a time-out (200 ms) while a disabled device holds an error acknowledgement
+            if mask.iter().any(|e| *e) && (thorough || mi % 2 == 0) {
+                let mut scs = fw_pass(0x51, &mut dk);
+                scs[1] = SendS {
+                    update_ok: true,
+                    frames: vec![FrameS { open: true, send_ok: true, polls: vec![PollS::Poll { recv: Recv::Rx { kinds: mask.iter().map(|e| if *e { Kind::P } else { Kind::E(0x88) }).collect(), base: 0x44 }, late: true }] }],
+                };
+                for s in scs.iter_mut().skip(2) {
+                    *s = empty_send();
+                }
+                c.push(Case::FwVer { scs }, rng);
+            }
+            c.push(Case::FwVer { scs: fw_pass(0x07, &mut dk) }, rng);
+            // close enables every device: all of them must acknowledge its three datagrams
+            let variant = mi % 3;
+            let close = if variant == 0 || (!thorough && variant == 2) {
+                pass_close(n)
+            } else {
+                // a device that was disabled does not acknowledge the first / last datagram of close (200 ms)
+                let lag: Vec<Kind> = mask.iter().map(|e| if *e { Kind::R } else { Kind::P }).collect();
+                let bad = SendS { update_ok: true, frames: vec![FrameS { open: true, send_ok: true, polls: vec![PollS::Poll { recv: Recv::Rx { kinds: lag, base: 9 }, late: true }] }] };
+                let mut sends = [pass_send(n, 1, 1), pass_send(n, 1, 2), pass_send(n, 1, 3)];
+                sends[if variant == 1 { 0 } else { 2 }] = bad;
+                CloseS::Open { sends, close_ok: true }
+            };
+            c.push(Case::Close { c: close }, rng);
+            out.push(c);
+        }
+    }
+
+    // ---- random scenarios: masks change between calls -------------------------------------------------
+    let nrand = if thorough { 60_000 } else { 3_000 };
+    let mut made = 0;
+    while made < nrand {
+        let n = 2 + rng.below(3) as usize;
+        let mut c = MaskChunk::new(n, *rng.pick(&[T::S, T::L, T::Z]));
+        let len = 40 + rng.below(60) as usize;
+        for i in 0..len {
+            if i == 0 || rng.chance(1, 7) {
+                let mut m: Vec<bool> = (0..n).map(|_| rng.chance(3, 5)).collect();
+                if rng.chance(1, 12) {
+                    m = vec![true; n];
+                }
+                c.enable(&m);
+                continue;
+            }
+            let mask = c.mask.clone();
+            let r = rng.below(100);
+            if r < 2 {
+                c.push(Case::SendX { t: *rng.pick(&[T::Z, T::S, T::N]), td: *rng.pick(&[T::Z, T::S, T::L]) }, rng);
+                continue;
+            }
+            if r < 5 {
+                let recv = if rng.chance(1, 6) { Recv::Err } else { Recv::Rx { kinds: (0..n).map(|_| Kind::E(rng.below(256) as u8)).collect(), base: rng.below(256) as u8 } };
+                c.push(Case::Fpga { open: rng.chance(5, 6), recv }, rng);
+                continue;
+            }
+            if r < 7 {
+                // firmware_version: passes, or fails early on a link fault (no 200 ms waits here)
+                let jf = rng.below(9) as usize;
+                let mut dk = || Kind::G;
+                let mut scs: Vec<SendS> = (0..6).map(|i| pass_send_m(&mask, 1, (i * 9) as u8, &mut dk)).collect();
+                for s in scs.iter_mut() {
+                    for f in s.frames.iter_mut() {
+                        if let PollS::Poll { recv: Recv::Rx { kinds, .. }, .. } = &mut f.polls[0] {
+                            for (d, kd) in kinds.iter_mut().enumerate() {
+                                if !mask[d] {
+                                    *kd = rand_disabled_kind(rng);
+                                }
+                            }
+                        }
+                    }
+                }
+                if jf < 6 {
+                    scs[jf] = match rng.below(3) {
+                        0 => SendS { update_ok: false, frames: vec![] },
+                        1 => SendS { update_ok: true, frames: vec![FrameS { open: false, send_ok: true, polls: vec![] }] },
+                        _ => SendS { update_ok: true, frames: vec![FrameS { open: true, send_ok: true, polls: vec![PollS::Poll { recv: Recv::Err, late: false }] }] },
+                    };
+                    for s in scs.iter_mut().skip(jf + 1) {
+                        *s = empty_send();
+                    }
+                }
+                c.push(Case::FwVer { scs }, rng);
+                continue;
+            }
+            let t = *rng.pick(&[T::Z, T::Z, T::S, T::L, T::L, T::N]);
+            let td = *rng.pick(&[T::Z, T::S, T::L]);
+            let te = eff(t, td);
+            let fv: Vec<u8> = (0..n).map(|_| *rng.pick(&[0u8, 1, 1, 2, 2, 3])).collect();
+            let k = if thorough { 4 } else { 3 };
+            let sc = rand_send_m(n, &mask, &fv, te, k, rng);
+            c.push(Case::Send { t, td, par: rng.below(3) as u8, frames: fv, sc }, rng);
+            made += 1;
+        }
+        if rng.chance(1, 3) {
+            c.push(Case::Close { c: pass_close(n) }, rng);
+        }
+        out.push(c);
+    }
+    out
 }
 
 fn plain_open(n: usize, t: T) -> Case {
@@ -1657,9 +2334,17 @@ fn pass_close(n: usize) -> CloseS {
 fn build_plan(thorough: bool, seed: u64) -> Plan {
     let mut rng = Rng::new(seed ^ 0xC04);
     let mut chunks: Vec<Vec<Case>> = vec![];
+    let mut twins: Vec<Option<Vec<Case>>> = vec![];
     let mut ecode = 0u32;
 
     // ---- corpus / witnesses first -------------------------------------------------------------
+    // (m) enable masks: the minimal scripts of the two enable-related regressions (own generator state,
+    //     so that the cases below are the same as before the masks were added)
+    let mut mrng = Rng::new(seed ^ 0xC04_E0AB);
+    for c in mask_corpus(&mut mrng) {
+        chunks.push(c.cases);
+        twins.push(Some(c.twin));
+    }
     // (a) the scenarios the property text names: ack on the third poll; error ack from the second
     //     device only; a stale ack from one device; the link closing between send and receive
     {
@@ -1961,7 +2646,13 @@ fn build_plan(thorough: bool, seed: u64) -> Plan {
         }
         chunks.push(c);
     }
-    Plan { chunks }
+    // ---- the same kinds of cases under enable masks ------------------------------------------------
+    twins.resize(chunks.len(), None);
+    for c in mask_chunks(thorough, &mut mrng) {
+        chunks.push(c.cases);
+        twins.push(Some(c.twin));
+    }
+    Plan { chunks, twins }
 }
 
 fn rx_explicit(n: usize, j: u8) -> Recv {
@@ -1989,9 +2680,68 @@ fn classify(case: &Case, ran: &Ran) -> (Option<u64>, Vec<String>) {
         Case::FwVer { .. } => "fwver",
         Case::Fpga { .. } => "fpga",
         Case::Close { .. } => "close",
+        Case::Enable { .. } => "enable",
         Case::Stale { .. } => "stale",
     };
     counts.push(format!("op:{kind}"));
+    if ran.en.iter().any(|e| !*e) && !matches!(case, Case::Enable { .. }) {
+        counts.push(format!("masked:{kind}"));
+        let en = &ran.en;
+        let first_en = en.iter().position(|e| *e);
+        let last_en = en.iter().rposition(|e| *e);
+        match (first_en, last_en) {
+            (Some(f), Some(l)) => {
+                if en[..f].iter().any(|e| !*e) {
+                    counts.push("mask:disabled-below-enabled".into());
+                }
+                if en[f..=l].iter().any(|e| !*e) {
+                    counts.push("mask:disabled-between-enabled".into());
+                }
+                if en[l..].iter().any(|e| !*e) {
+                    counts.push("mask:disabled-above-enabled".into());
+                }
+            }
+            _ => counts.push("mask:all-disabled".into()),
+        }
+        let scripts: Vec<&SendS> = match case {
+            Case::Send { sc, .. } => vec![sc],
+            Case::FwVer { scs } => scs.iter().collect(),
+            _ => vec![],
+        };
+        let mut says = std::collections::BTreeSet::new();
+        let mut enabled_behind = std::collections::BTreeSet::new();
+        for sc in scripts {
+            for f in &sc.frames {
+                for p in &f.polls {
+                    if let PollS::Poll { recv: Recv::Rx { kinds, .. }, late } = p {
+                        for (i, k) in kinds.iter().enumerate() {
+                            if !en.get(i).copied().unwrap_or(true) {
+                                says.insert(match k {
+                                    Kind::R => "disabled-says:awaited-id",
+                                    Kind::P => "disabled-says:previous-id",
+                                    Kind::G => "disabled-says:garbage-id",
+                                    Kind::E(c) if (0x80..=0x8F).contains(c) => "disabled-says:firmware-error",
+                                    Kind::E(c) if c & 0x80 != 0 => "disabled-says:other-error-bit",
+                                    Kind::E(_) => "disabled-says:other-byte",
+                                });
+                            } else if en[..i].iter().any(|e| !*e) {
+                                enabled_behind.insert(match k {
+                                    Kind::R => "enabled-behind-disabled:acknowledges",
+                                    Kind::P | Kind::G if *late => "enabled-behind-disabled:missing-at-timeout",
+                                    Kind::P | Kind::G => "enabled-behind-disabled:late",
+                                    Kind::E(c) if c & 0x80 != 0 => "enabled-behind-disabled:error-ack",
+                                    Kind::E(_) => "enabled-behind-disabled:late",
+                                });
+                            }
+                        }
+                    }
+                }
+            }
+        }
+        for x in says.into_iter().chain(enabled_behind) {
+            counts.push(x.into());
+        }
+    }
     let rk = ran.result.split(['(', '[', ' ']).next().unwrap_or("").to_string();
     counts.push(format!("result:{rk}"));
     if let Case::Send { t, td, frames, sc, .. } = case {
@@ -2015,6 +2765,7 @@ fn classify(case: &Case, ran: &Ran) -> (Option<u64>, Vec<String>) {
         Case::Send { sc, .. } => ran.result == "ok" && sc.frames.iter().all(|f| f.polls.len() == 1 && matches!(&f.polls[0], PollS::Poll { recv, late: false } if recv.all_right())),
         Case::Open { ff, cs, .. } => ran.result == "ok" && ff.frames.iter().chain(cs.frames.iter()).all(|f| f.polls.len() == 1 && matches!(&f.polls[0], PollS::Poll { recv, late: false } if recv.all_right())),
         Case::Stale { .. } => false,
+        Case::Enable { .. } => true,
         _ => false,
     };
     let sig = if trivial {
@@ -2038,16 +2789,27 @@ fn classify(case: &Case, ran: &Ran) -> (Option<u64>, Vec<String>) {
             }
             s
         };
-        Some(fnv64(format!("{shape}|{}", ran.result).as_bytes()))
+        Some(fnv64(format!("{shape}|{}|{}", ran.result, bits(&ran.en)).as_bytes()))
     };
     (sig, counts)
 }
 
 fn check_oracle(case: &Case, ran: &Ran) -> Option<(String, String, Vec<String>)> {
     let mk = |what: String| {
-        let key = format!("sender:{}", case.text().replace(' ', "_"));
+        let key = if ran.en.iter().any(|e| !*e) {
+            format!("sender:enable_{}:{}", bits(&ran.en), case.text().replace(' ', "_"))
+        } else {
+            format!("sender:{}", case.text().replace(' ', "_"))
+        };
         let key = if key.len() > 160 { format!("{}#{:016x}", &key[..140], fnv64(key.as_bytes())) } else { key };
-        Some((key, what, vec![case.text(), format!("-> {}", ran.answer)]))
+        let mut replay = vec![];
+        if ran.en.iter().any(|e| !*e) {
+            // context: the controller was opened with this many devices and these enable flags were set
+            replay.push(format!("enable {}", bits(&ran.en)));
+        }
+        replay.push(case.text());
+        replay.push(format!("-> {}", ran.answer));
+        Some((key, what, replay))
     };
     if ran.result.starts_with("panic") {
         return mk(format!("the call panicked: {}", ran.result));
@@ -2055,8 +2817,16 @@ fn check_oracle(case: &Case, ran: &Ran) -> Option<(String, String, Vec<String>)>
     match case {
         Case::Send { t, td, .. } => {
             let tz = eff(*t, *td) == T::Z;
-            if let Some(w) = oracle_send(tz, &ran.calls, &ran.result) {
+            if let Some(w) = oracle_send(tz, &ran.en, &ran.calls, &ran.result) {
                 return mk(w);
+            }
+            None
+        }
+        Case::FwVer { .. } => oracle_fwver(&ran.en, &ran.calls, &ran.result).and_then(mk),
+        Case::Close { .. } => oracle_close(ran.en.len(), &ran.calls, &ran.result).and_then(mk),
+        Case::Enable { mask } => {
+            if ran.result != format!("set {}", bits(mask)) {
+                return mk(format!("enable flags read back as `{}`", ran.result));
             }
             None
         }
@@ -2066,15 +2836,7 @@ fn check_oracle(case: &Case, ran: &Ran) -> Option<(String, String, Vec<String>)>
             }
             // split at the `update` calls: [open] [ForceFan] [Clear+Sync] [drop…]
             let tz = *t == T::Z;
-            let mut segs: Vec<Vec<Call>> = vec![];
-            for c in &ran.calls {
-                if matches!(c, Call::Update(_)) {
-                    segs.push(vec![]);
-                }
-                if let Some(s) = segs.last_mut() {
-                    s.push(c.clone());
-                }
-            }
+            let segs = segments(&ran.calls);
             if segs.len() >= 2 {
                 // the second send decides; cut its segment where Drop starts (after a failure)
                 let mut seg = segs[1].clone();
@@ -2128,7 +2890,9 @@ fn check_oracle(case: &Case, ran: &Ran) -> Option<(String, String, Vec<String>)>
                     }
                     seg.truncate(end);
                 }
-                if let Some(w) = oracle_send(tz, &seg, &ran.result) {
+                // a fresh geometry: every device is enabled
+                let all = vec![true; seg.iter().find_map(|c| if let Call::Send(f, _) = c { Some(f.len()) } else { None }).unwrap_or(0)];
+                if let Some(w) = oracle_send(tz, &all, &seg, &ran.result) {
                     return mk(format!("open: {w}"));
                 }
             }
@@ -2149,6 +2913,25 @@ fn check_oracle(case: &Case, ran: &Ran) -> Option<(String, String, Vec<String>)>
     }
 }
 
+/// what must not depend on the bytes disabled devices answer: the result and the calls, with the
+/// acknowledgement bytes of disabled devices wiped.  The per-device flags of `ReadFirmwareVersionFailed`
+/// are wiped altogether: they are computed from the buffers as they are, for every device, also when the
+/// fetch failed before anything was received — then they show what a device answered in an earlier call,
+/// possibly while it was disabled (the model line still compares them exactly).
+fn canon_twin(ran: &Ran, en: &[bool]) -> String {
+    let enabled = |i: usize| en.get(i).copied().unwrap_or(true);
+    let result = if ran.result.starts_with("err:ReadFirmwareVersionFailed[") { "err:ReadFirmwareVersionFailed[..]".to_string() } else { ran.result.clone() };
+    let calls: Vec<Call> = ran
+        .calls
+        .iter()
+        .map(|c| match c {
+            Call::Recv(Some(rx), late) => Call::Recv(Some(rx.iter().enumerate().map(|(i, r)| if enabled(i) { *r } else { (0, r.1) }).collect()), *late),
+            c => c.clone(),
+        })
+        .collect();
+    format!("{result} | {}", show_calls(&calls))
+}
+
 pub fn run(args: &Args, is_async: bool) {
     let mut out = Out::new(&args.out);
     start_watchdog(&args.out, 60);
@@ -2167,15 +2950,21 @@ pub fn run(args: &Args, is_async: bool) {
                 let mut w = Worker::new(is_async);
                 // C11: the same cases go through the synchronous controller in lock-step
                 let mut shadow = if is_async { Some(Worker::new(false)) } else { None };
+                // C04, enable masks: chunks that come with a twin are run a second time on a controller whose link
+                // answers other bytes for the disabled devices
+                let mut twin_w = if is_async { None } else { Some(Worker::new(false)) };
                 loop {
                     let ci = next.fetch_add(1, Ordering::SeqCst);
                     if ci >= nchunks {
                         break;
                     }
                     let chunk = &plan.chunks[ci];
+                    let twin_cases: Option<&Vec<Case>> = if twin_w.is_some() { plan.twins[ci].as_ref() } else { None };
                     let mut emitted: Vec<Emitted> = vec![];
                     // the open line that started the current controller (re-issued after a discarded case)
                     let mut opener: Option<Case> = None;
+                    // … and the enable line in force (re-issued after the re-open)
+                    let mut cur_enable: Option<Case> = None;
                     let mut i = 0;
                     let mut tries = 0;
                     while i < chunk.len() {
@@ -2191,9 +2980,13 @@ pub fn run(args: &Args, is_async: bool) {
                                     };
                                     let ran = w.run(&plain);
                                     let sh_bad = shadow.as_mut().map(|s| s.run(&plain)).is_some_and(|r| r.compromised || r.result != "ok");
-                                    if ran.compromised || ran.result != "ok" || sh_bad {
+                                    let tw_bad = twin_cases.is_some() && twin_w.as_mut().map(|s| s.run(&plain)).is_some_and(|r| r.compromised || r.result != "ok");
+                                    if ran.compromised || ran.result != "ok" || sh_bad || tw_bad {
                                         w.dispose();
                                         if let Some(s) = shadow.as_mut() {
+                                            s.dispose();
+                                        }
+                                        if let Some(s) = twin_w.as_mut() {
                                             s.dispose();
                                         }
                                         tries += 1;
@@ -2205,6 +2998,19 @@ pub fn run(args: &Args, is_async: bool) {
                                     }
                                     let (sig, counts) = classify(&plain, &ran);
                                     emitted.push(Emitted { op: plain.text(), answer: ran.answer.clone(), sig, counts, violation: check_oracle(&plain, &ran) });
+                                    if let Some(e) = &cur_enable {
+                                        let ran = w.run(e);
+                                        if let Some(s) = shadow.as_mut() {
+                                            s.run(e);
+                                        }
+                                        if twin_cases.is_some() {
+                                            if let Some(s) = twin_w.as_mut() {
+                                                s.run(e);
+                                            }
+                                        }
+                                        let (sig, counts) = classify(e, &ran);
+                                        emitted.push(Emitted { op: e.text(), answer: ran.answer.clone(), sig, counts, violation: check_oracle(e, &ran) });
+                                    }
                                 }
                                 None => {
                                     skipped.fetch_add(chunk.len() - i, Ordering::SeqCst);
@@ -2214,8 +3020,15 @@ pub fn run(args: &Args, is_async: bool) {
                         }
                         let ran = run_guarded(&mut w, case);
                         let ran_sync = shadow.as_mut().map(|s| run_guarded(s, case));
-                        if ran.compromised || ran_sync.as_ref().is_some_and(|r| r.compromised) {
+                        let ran_twin = match (twin_cases, twin_w.as_mut()) {
+                            (Some(tc), Some(tw)) => Some(run_guarded(tw, &tc[i])),
+                            _ => None,
+                        };
+                        if ran.compromised || ran_sync.as_ref().is_some_and(|r| r.compromised) || ran_twin.as_ref().is_some_and(|r| r.compromised) {
                             if let Some(s) = shadow.as_mut() {
+                                s.dispose();
+                            }
+                            if let Some(s) = twin_w.as_mut() {
                                 s.dispose();
                             }
                             // wall clock interfered: discard, start over on a fresh controller
@@ -2233,6 +3046,10 @@ pub fn run(args: &Args, is_async: bool) {
                         tries = 0;
                         if let Case::Open { .. } = case {
                             opener = Some(case.clone());
+                            cur_enable = None;
+                        }
+                        if let Case::Enable { .. } = case {
+                            cur_enable = Some(case.clone());
                         }
                         let (sig, mut counts) = classify(case, &ran);
                         if ran.leftover > 0 {
@@ -2264,11 +3081,31 @@ pub fn run(args: &Args, is_async: bool) {
                             }
                             counts.push("compared-with-sync".into());
                         }
+                        if let (Some(rt), Some(tc)) = (&ran_twin, twin_cases) {
+                            // the property on the implementation alone: what the disabled devices answer never matters.
+                            // `close` enables every device before it sends: nothing is wiped there
+                            let all = vec![true; ran.en.len()];
+                            let en: &[bool] = if matches!(case, Case::Close { .. }) { &all } else { &ran.en };
+                            let (a, b) = (canon_twin(&ran, en), canon_twin(rt, en));
+                            if a != b && violation.is_none() {
+                                let key = format!("disabled-ack-dependence:enable_{}:{}", bits(&ran.en), case.text().replace(' ', "_"));
+                                let key = if key.len() > 160 { format!("{}#{:016x}", &key[..140], fnv64(key.as_bytes())) } else { key };
+                                violation = Some((
+                                    key,
+                                    format!("enable {}: the same call gave `{a}`, and `{b}` when only the bytes answered by disabled devices were changed", bits(&ran.en)),
+                                    vec![format!("enable {}", bits(&ran.en)), case.text(), format!("-> {}", ran.answer), tc[i].text(), format!("-> {}", rt.answer)],
+                                ));
+                            }
+                            counts.push("compared-with-twin(other-bytes-from-disabled)".into());
+                        }
                         emitted.push(Emitted { op: case.text(), answer: ran.answer.clone(), sig, counts, violation });
                         i += 1;
                     }
                     w.dispose();
                     if let Some(s) = shadow.as_mut() {
+                        s.dispose();
+                    }
+                    if let Some(s) = twin_w.as_mut() {
                         s.dispose();
                     }
                     *results[ci].lock().unwrap() = emitted;
@@ -2328,6 +3165,6 @@ pub fn run(args: &Args, is_async: bool) {
     ));
     out.finish(
         if is_async { "sender_async" } else { "sender" },
-        "a case is one controller call (open / send / firmware_version / fpga_state / close / stale-id open) with its link script; trivial = plain success with every frame acknowledged on the first poll; distinct by script shape (acknowledgement kinds, faults, lateness, frame counts, timeouts; data bytes erased) and result",
+        "a case is one controller call (open / enable flags / send / firmware_version / fpga_state / close / stale-id open) with its link script; trivial = plain success with every frame acknowledged on the first poll by every device, and setting enable flags; distinct by script shape (acknowledgement kinds, faults, lateness, frame counts, timeouts; data bytes erased), enable mask and result",
     );
 }
